@@ -62,6 +62,17 @@ def gen_str(quick: bool) -> str:
             for lim in ([0, 2] if quick else [0, 1, 2, 3]):
                 args = f'"{pos}"' + (f', "{lim}"' if lim else "")
                 out.append(_cond(f"f_explode_d{di}_{_n(pos)}_{lim}", ["s"], S, f'    return call("#explode", s, {delim!r}, {args}) == R.r_explode(s, {delim!r}, {pos}, {lim})', f'    return _rp("#explode", [s, {delim!r}, {args}], R.r_explode(s, {delim!r}, {pos}, {lim}))'))
+    # urlencode in its three modes; #urldecode inverts the QUERY mode.  quick: every single character of the alphabet on its
+    # own and between two letters (inner blank vs trimmed outer blank); thorough: all strings up to 3 characters
+    if quick:
+        shapes = [("", ["len(s) == 1", "s[0] in ALPHA_U"]), ("_mid", ["len(s) == 3", 's[0] == "a" and s[2] == "Z"', "s[1] in ALPHA_U"])]
+    else:
+        shapes = [("", ["len(s) <= 3", "all(c in ALPHA_U for c in s)"])]
+    for sfx, SU in shapes:
+        for fmt in ("QUERY", "PATH", "WIKI", ""):
+            a = f', "{fmt}"' if fmt else ""
+            out.append(_cond(f"f_urlencode_{fmt or 'default'}{sfx}", ["s"], SU, f'    return call("urlencode", s{a}) == R.r_urlencode(s, "{fmt or "QUERY"}", codepoint)', f'    return _rp_url("{fmt}", s)'))
+        out.append(_cond(f"f_urldecode_inverts{sfx}", ["s"], SU, '    return call("#urldecode", call("urlencode", s)) == R.trim(s)', '    return _rp("#urldecode", [via_expand("urlencode", s)], R.trim(s))'))
     # titleparts.  Domain: valid titles only (non-empty segments; MediaWiki returns an invalid title unchanged), and the
     # known-finding region is excluded: first segment >= 1, ':' in the title.
     STT = [f"1 <= len(s) <= {L}", "all(c in 'ab/' for c in s)", "s[0] != '/' and s[len(s) - 1] != '/' and '//' not in s"]
@@ -163,7 +174,7 @@ def run(rep: C.Report) -> None:
         rep,
         H,
         {
-            "^f_": dict(name="Ob1 string functions equal their reference definitions", functions=["parserfns.py: len_fn pos_fn rpos_fn sub_fn replace_fn explode_fn titleparts_fn padleft_fn padright_fn lc_fn uc_fn lcfirst_fn ucfirst_fn"], bounds=f"subject <= {L} chars over {{a,b,space,/,:}}, needle/pad <= 2 chars, integer arguments in [-{K},{K}] enumerated one condition each"),
+            "^f_": dict(name="Ob1 string functions equal their reference definitions", functions=["parserfns.py: len_fn pos_fn rpos_fn sub_fn replace_fn explode_fn titleparts_fn padleft_fn padright_fn lc_fn uc_fn lcfirst_fn ucfirst_fn urlencode_fn urldecode_fn"], bounds=f"subject <= {L} chars over {{a,b,space,/,:}}, needle/pad <= 2 chars, integer arguments in [-{K},{K}] enumerated one condition each"),
         },
         timeout=60 if quick else 300,
         src=src,
